@@ -54,7 +54,10 @@ def handle(line):
 
 
 def main():
-    out = []
+    # answers are written one by one to the REAL stdout (a single write of more than 2 GiB is cut short by the kernel);
+    # whatever the code under test prints goes to stderr
+    real_out = sys.stdout
+    sys.stdout = sys.stderr
     for line in sys.stdin:
         line = line.rstrip('\n')
         try:
@@ -65,8 +68,9 @@ def main():
             ans = '(raise AssertionError)'
         except Exception as e:   # noqa
             ans = f'(raise {type(e).__name__})'
-        out.append(ans)
-    sys.stdout.write('\n'.join(out) + ('\n' if out else ''))
+        real_out.write(ans)
+        real_out.write('\n')
+    real_out.flush()
 
 
 if __name__ == '__main__':
